@@ -27,6 +27,16 @@ Send(h, e) == /\ Tick /\ hstate[h] \in {"connected", "disconnected"}
                       ELSE /\ hstate' = [hstate EXCEPT ![h] = "disconnected"] /\ UNCHANGED <<queue, accepted, nextId>>
                  ELSE UNCHANGED <<queue, accepted, nextId, hstate>>
               /\ UNCHANGED <<rxAlive, out, terminated>>
+(* n sends in a row by one connected handle (used by the behaviour generator to reach a full queue of the real *)
+(* capacity within a few steps): exactly what n applications of Send do                                       *)
+SendMany(h, e, n) ==
+  /\ Tick /\ hstate[h] = "connected" /\ rxAlive
+  /\ LET room == Cap - Len(queue)
+         k == IF n <= room THEN n ELSE room
+         new == [i \in 1..k |-> [id |-> nextId + i - 1, e |-> e]] IN
+     /\ queue' = queue \o new /\ accepted' = accepted \o new /\ nextId' = nextId + k
+     /\ hstate' = IF n > room THEN [hstate EXCEPT ![h] = "disconnected"] ELSE hstate
+  /\ UNCHANGED <<rxAlive, out, terminated>>
 Clone(h, g) == /\ Tick /\ hstate[h] \in {"connected", "disconnected"} /\ hstate[g] = "unused"
                /\ hstate' = [hstate EXCEPT ![g] = hstate[h]] /\ UNCHANGED <<queue, rxAlive, out, terminated, accepted, nextId>>
 Disconnect(h) == /\ Tick /\ hstate[h] \in {"connected", "disconnected"} /\ hstate' = [hstate EXCEPT ![h] = "disconnected"]
